@@ -28,7 +28,8 @@ RULE = ('histories on the real Bus with up to 4 raw scripted clients: connect+He
         'distinct over the whole history; a method call to org.freedesktop.DBus gets exactly one reply from the bus and '
         'reaches no client; a broadcast reaches exactly the set of connections holding a rule the C12 reference matcher '
         'accepts. Non-trivial = >=3 clients with a forged sender, or a destination whose owner changed earlier, or a '
-        'broadcast with a near-miss rule; distinct = distinct history JSON.')
+        'broadcast with a near-miss rule; distinct = distinct history JSON. Messages come in the four header spellings of '
+        'refcodec.encode_variant (unknown fields, free field order, flag bit 0x4).')
 ASSUMPTIONS = ['how many copies of a broadcast a connection with several matching rules receives is not asserted',
                'the answer to a message for an unowned destination is not asserted, only that no client receives it']
 
@@ -266,7 +267,7 @@ def run_history(case):
                 c.serial += 1
                 serial = c.serial
                 flags = (1 if b.get('no_reply') else 0) | (2 if b.get('no_auto') else 0)
-                raw = R.encode_message(m['type'], serial, f, m['sig'], m['trees'], little=b.get('little', True), flags=flags)
+                raw = R.encode_variant(serial + ci, m['type'], serial, f, m['sig'], m['trees'], little=b.get('little', True), flags=flags)
                 queues[ci] += raw
                 bounds[ci].append(len(queues[ci]))
                 sent.append({'from': ci, 'type': m['type'], 'fields': f, 'dest': dest, 'serial': serial, 'flags': flags,
